@@ -234,7 +234,8 @@ class Vector():
 		if x is None:
 			return 0x9E3779B97F4A7C15
 		
-		if hasattr(x, "fingerprint") and callable(getattr(x, "fingerprint")):
+		# (a class that defines fingerprint() is a cell like any other object: only an instance can be asked)
+		if not isinstance(x, type) and hasattr(x, "fingerprint") and callable(getattr(x, "fingerprint")):
 			return int(x.fingerprint())
 
 		if isinstance(x, float):
